@@ -8,12 +8,15 @@ open TdVerif Sexp TdVerif.C13
 
 namespace C13IO
 
-/-- `(name id p|t)` or `(name none)` -/
+/-- kinds: `p` Parameter, `pl` UninitializedParameter, `t` plain tensor / buffer -/
+def tnOf (i : Nat) (k : String) : Tn := ⟨i, k == "p" || k == "pl", k == "pl"⟩
+
+/-- `(name id p|pl|t)` or `(name none)` -/
 def optEntry? : Sexp → Option (Name × Option Tn)
   | .list [.atom n, .atom "none"] => some (n, none)
   | .list [.atom n, i, .atom k] => do
       let i ← asNat? i
-      pure (n, some ⟨i, k == "p"⟩)
+      pure (n, some (tnOf i k))
   | _ => none
 
 def entry? (s : Sexp) : Option (Name × Tn) := do
@@ -37,6 +40,7 @@ def mod? : Sexp → Option Mod
       | .list (.atom "kids" :: ks) => do pure { md with kids := ← ks.mapM kid? }
       | .list (.atom "np" :: ns) => do pure { md with nonPersistent := ← ns.mapM asAtom? }
       | .atom "custom" => some { md with custom := true }
+      | .list [.atom "hooks", n] => do pure { md with preHooks := ← asNat? n }
       | _ => none) {}
   | _ => none
 
@@ -48,7 +52,7 @@ def toHeap (ms : List Mod) : Heap := fun c => ms.getD c {}
 
 mutual
 partial def tree? : Sexp → Option PTree
-  | .list [.atom "leaf", i, .atom k] => do pure (.leaf ⟨← asNat? i, k == "p"⟩)
+  | .list [.atom "leaf", i, .atom k] => do pure (.leaf (tnOf (← asNat? i) k))
   | .list (.atom "node" :: es) => do pure (.node (← es.mapM ent?))
   | _ => none
 partial def ent? : Sexp → Option (Name × PTree)
@@ -72,15 +76,17 @@ partial def stmt? : Sexp → Option Stmt
   | .list (.atom "try" :: body) => do pure (.tryExcept (← body.mapM stmt?))
   | _ => none
 
-def tnSexp (t : Tn) : List Sexp := [ofNat t.id, .atom (if t.isParam then "p" else "t")]
+def tnSexp (t : Tn) : List Sexp := [ofNat t.id, .atom (if t.isParam then (if t.lazy then "pl" else "p") else "t")]
 
 def optEntrySexp : Name × Option Tn → Sexp
   | (n, none) => .list [.atom n, .atom "none"]
   | (n, some t) => .list (.atom n :: tnSexp t)
 
 def modSexp (md : Mod) : Sexp :=
-  tagged "mod" [tagged "params" (md.params.map optEntrySexp), tagged "buffers" (md.buffers.map optEntrySexp),
+  tagged "mod" ([tagged "params" (md.params.map optEntrySexp), tagged "buffers" (md.buffers.map optEntrySexp),
     tagged "plain" (md.plain.map (fun e => .list (.atom e.1 :: tnSexp e.2)))]
+    -- len(module._forward_pre_hooks), printed only when there are some
+    ++ (if md.preHooks == 0 then [] else [tagged "hooks" [ofNat md.preHooks]]))
 
 def heapSexp (h : Heap) (n : Nat) : Sexp := tagged "mods" ((List.range n).map (fun c => modSexp (h c)))
 
@@ -138,6 +144,12 @@ def handleC13 (cmd : String) (args : List Sexp) : Option Sexp :=
   | "c13.swap", [hp, root, p] => do
       let ms ← heap? hp; let root ← asNat? root; let p ← td? p
       pure (swapAns ms.length (swap (toHeap ms) root p))
+  | "c13.install", [hp, root, p] => do
+      -- to_module(module, return_swap=False)
+      let ms ← heap? hp; let root ← asNat? root; let p ← td? p
+      match install (toHeap ms) root p with
+      | .error (e, h) => pure (tagged "err" [errSexp e, heapSexp h ms.length])
+      | .ok h1 => pure (tagged "ok" [heapSexp h1 ms.length])
   | "c13.swap_old", [hp, root, p] => do
       let ms ← heap? hp; let root ← asNat? root; let p ← td? p
       pure (swapAns ms.length (swapOld (toHeap ms) root p))
@@ -178,7 +190,7 @@ def handleC13 (cmd : String) (args : List Sexp) : Option Sexp :=
       let ls ← leaves.mapM (fun l => match l with
         | .list [.list comps, .atom k] => do
             let comps ← comps.mapM asAtom?
-            pure (comps, (⟨0, k == "p"⟩ : Tn))
+            pure (comps, tnOf 0 k)
         | _ => none)
       let ls := ls.zipIdx.map (fun (e, i) => (e.1, ({ e.2 with id := i } : Tn)))
       let r := Params.resetParams ls
